@@ -118,6 +118,22 @@ Theorem c06_withdraw_no_loss : forall cap occ dar war v,
   ((cap - occ) * war / dar < W64)%N -> (dar <= war)%N -> (cap <= v)%N.
 Proof. exact withdraw_no_loss. Qed.
 
+Theorem c06_withdraw_interest_exact : forall cap occ dar war v,
+  maximum_withdraw cap occ dar war = Some v ->
+  ((cap - occ) * war / dar < W64)%N -> (dar <= war)%N ->
+  v = (cap + (cap - occ) * (war - dar) / dar)%N.
+Proof. exact withdraw_interest_exact. Qed.
+
+Theorem c06_withdraw_monotone_in_ar : forall cap occ dar war1 war2 v1 v2,
+  maximum_withdraw cap occ dar war1 = Some v1 ->
+  maximum_withdraw cap occ dar war2 = Some v2 ->
+  ((cap - occ) * war2 / dar < W64)%N -> (war1 <= war2)%N -> (v1 <= v2)%N.
+Proof. exact withdraw_monotone_in_ar. Qed.
+
+Theorem c06_withdraw_fully_occupied : forall cap dar war v,
+  maximum_withdraw cap cap dar war = Some v -> v = cap.
+Proof. exact withdraw_fully_occupied. Qed.
+
 Theorem c06_withdraw_truncation_refuted :
   exists cap occ dar war v,
     maximum_withdraw cap occ dar war = Some v /\ v <> (occ + (cap - occ) * war / dar)%N.
@@ -223,6 +239,9 @@ Redirect "out/C06.c06_dao_S_accounts" Print Assumptions c06_dao_S_accounts.
 Redirect "out/C06.c06_secondary_split" Print Assumptions c06_secondary_split.
 Redirect "out/C06.c06_withdraw_formula" Print Assumptions c06_withdraw_formula.
 Redirect "out/C06.c06_withdraw_no_loss" Print Assumptions c06_withdraw_no_loss.
+Redirect "out/C06.c06_withdraw_interest_exact" Print Assumptions c06_withdraw_interest_exact.
+Redirect "out/C06.c06_withdraw_monotone_in_ar" Print Assumptions c06_withdraw_monotone_in_ar.
+Redirect "out/C06.c06_withdraw_fully_occupied" Print Assumptions c06_withdraw_fully_occupied.
 Redirect "out/C06.c06_withdraw_truncation_refuted" Print Assumptions c06_withdraw_truncation_refuted.
 Redirect "out/C06.c06_tx_fee_balance" Print Assumptions c06_tx_fee_balance.
 Redirect "out/C06.c06_dao_run_example" Print Assumptions c06_dao_run_example.
